@@ -110,6 +110,7 @@ Definition decode (code : Z) (a : list Z) (rows : list (list Z)) : option op :=
   | 127, [s; f] => Some (ParIterElementsMutIdx s f)
   | 128, [s] => Some (IntoParIterElementsIdx s)
   | 130, [s] => Some (DropOp s)
+  | 140, [s; n; f; axis] => Some (ThreadedVectorsMut s n f axis)
   | _, _ => None
   end.
 
